@@ -55,7 +55,7 @@ func unhx(s string) []byte {
 
 // template schedule by case index (every class required by the gate is forced)
 var templates = []string{"none", "revert_suicide_recreated", "block", "nested", "touch_revert_write", "copy", "suicide_recreate", "block", "revert_suicide_recreated2", "none",
-	"shared_code", "nested", "block", "copy", "touch_revert_write_late", "revert_suicide_recreated", "none", "block", "copy", "nested"}
+	"shared_code", "nested", "block", "copy", "touch_revert_write_late", "revert_suicide_recreated", "revert_to_cleared_slot", "reopen_twin", "copy", "revert_to_cleared_slot"}
 
 type gen struct {
 	r  *fw.Rand
@@ -457,6 +457,47 @@ func (g *gen) template() {
 		g.emit(op{K: "setstate", A: x, S: 2, V: g.nonzero32()})
 		g.emit(op{K: "check"})
 		g.emit(op{K: "commit", D: g.flag(), M: g.reopenMode()})
+	case "revert_to_cleared_slot":
+		// a slot that is non-zero in the storage trie (committed, or flushed by an
+		// earlier Finalise) is cleared in the current period; a later write to it
+		// under a snapshot is reverted: the pending clear must be back
+		x, sl := 1, g.slot()
+		if y := g.g.w.acc[x]; y != nil && y.suicided {
+			g.emit(op{K: "iroot", D: g.flag()})
+		}
+		g.emit(op{K: "setnonce", A: x, U: 5})
+		g.emit(op{K: "setstate", A: x, S: sl, V: g.nonzero32()})
+		if r.Bool() {
+			g.emit(op{K: "commit", D: g.flag(), M: g.reopenMode()})
+		} else {
+			g.emit(op{K: "iroot", D: g.flag()})
+		}
+		g.emit(op{K: "setstate", A: x, S: sl, V: hx(make([]byte, 32))})
+		if r.Bool() {
+			g.write(g.addr())
+		}
+		g.emit(op{K: "snap"})
+		k := len(g.g.snaps) - 1
+		g.emit(op{K: "setstate", A: x, S: sl, V: g.nonzero32()})
+		if r.Bool() {
+			g.emit(op{K: "setstate", A: x, S: sl, V: g.val32()})
+		}
+		g.emit(op{K: "revert", N: k})
+		g.emit(op{K: "check"})
+		g.emit(op{K: "iroot", D: g.flag()})
+		g.emit(op{K: "commit", D: g.flag(), M: g.reopenMode()})
+	case "reopen_twin":
+		// commit and continue on a handle opened from the same caching database
+		// while a second, unread handle on the same root stays alive
+		fl := g.flag()
+		g.emit(op{K: "commit", D: fl, M: []string{"same", "reset"}[r.Intn(2)]})
+		g.write(1)
+		g.write(2)
+		g.emit(op{K: "addbal", A: 5, V: g.amount()})
+		g.emit(op{K: "suicide", A: 4})
+		g.emit(op{K: "iroot", D: fl})
+		g.write(g.addr())
+		g.emit(op{K: "commit", D: fl, M: "fresh"})
 	case "shared_code":
 		code := hx(r.Bytes(r.Range(40, 90)))
 		g.emit(op{K: "setcode", A: 2, V: code})
